@@ -56,12 +56,12 @@ var targets = []target{
 		"Header.GetErrorCode", "Header.GetOriginTime", "Header.SetOriginTime", "Header.GetCounter", "Header.SetCounter",
 		"Header.GetTotalSize", "Header.SetTotalSize", "Header.GetPartIndex", "Header.SetPartIndex",
 		"Header.GetPartCount", "Header.SetPartCount", "Header.SetTimeout",
-		"newCollector", "collector.addPart", "collector.isComplete", "extractErrorCode"}},
+		"newCollector", "collector.addPart", "collector.isComplete", "extractErrorCode", "Swarm.MTU"}, OpaqueRecv: []string{"Swarm"}},
 	{Pkg: "go.brendoncarroll.net/p2p/p/p2pmux", Funcs: []string{"uint16MuxFunc", "uint16DemuxFunc", "uint32MuxFunc",
 		"uint32DemuxFunc", "uint64MuxFunc", "uint64DemuxFunc", "varintMuxFunc", "varintDemuxFunc", "stringMuxFunc",
 		"stringDemuxFunc"}},
 	{Pkg: "go.brendoncarroll.net/p2p/s/fragswarm", Funcs: []string{"appendUvarint", "newMessage", "parseMessage",
-		"aggregator.addPart", "aggregator.assemble"}},
+		"aggregator.addPart", "aggregator.assemble", "swarm.MTU"}, OpaqueRecv: []string{"swarm"}},
 	{Pkg: "go.brendoncarroll.net/p2p/p/p2pke", Funcs: []string{"newMessage", "ParseMessage", "Message.GetNonce",
 		"Message.SetNonce", "Message.HeaderBytes", "Message.Body", "IsInitHello", "IsRespHello", "IsHello", "IsPostHandshake",
 		"Session.canSend", "Session.canReceive", "Session.IsReady"}, OpaqueRecv: []string{"Session"}},
@@ -256,6 +256,40 @@ func (g *gen) closeOpaqueFields() {
 	}
 }
 
+type opaqueCall struct {
+	name string
+	typ  types.Type
+}
+
+// opaqueCallOf: call is recv.field.Method() with an interface-typed field (possibly embedded): the parameter name and
+// the result type, or ""
+func opaqueCallOf(info *types.Info, recv *types.Var, call *ast.CallExpr) (string, types.Type) {
+	se, ok := call.Fun.(*ast.SelectorExpr)
+	if !ok {
+		return "", nil
+	}
+	inner, ok := se.X.(*ast.SelectorExpr)
+	if !ok {
+		return "", nil
+	}
+	id, ok := inner.X.(*ast.Ident)
+	if !ok || info.Uses[id] != recv {
+		return "", nil
+	}
+	sel := info.Selections[inner]
+	if sel == nil || sel.Kind() != types.FieldVal {
+		return "", nil
+	}
+	if _, isIface := sel.Obj().Type().Underlying().(*types.Interface); !isIface {
+		return "", nil
+	}
+	sig, ok := info.Types[call.Fun].Type.(*types.Signature)
+	if !ok || sig.Results().Len() != 1 {
+		return "", nil
+	}
+	return recv.Name() + "_" + inner.Sel.Name + "_" + se.Sel.Name, sig.Results().At(0).Type()
+}
+
 func recvTypeName(e ast.Expr) string {
 	switch t := e.(type) {
 	case *ast.StarExpr:
@@ -301,6 +335,7 @@ type fnInfo struct {
 	// opaque receiver: fields read become parameters
 	opaqueRecv   *types.Var
 	opaqueFields []*types.Var
+	opaqueCalls  []opaqueCall
 	order        int
 }
 
@@ -335,11 +370,31 @@ func (g *gen) addFunc(p *pkgInfo, name string, fd *ast.FuncDecl) {
 				if id, ok := se.X.(*ast.Ident); ok && p.info.Uses[id] == r {
 					if sel := p.info.Selections[se]; sel != nil && sel.Kind() == types.FieldVal {
 						v := sel.Obj().(*types.Var)
+						if _, isIface := v.Type().Underlying().(*types.Interface); isIface {
+							return true // only used through calls: see opaqueCalls
+						}
 						if !seen[v] {
 							seen[v] = true
 							fi.opaqueFields = append(fi.opaqueFields, v)
 						}
 					}
+				}
+				return true
+			})
+			// calls without arguments through an interface-typed field of the opaque receiver (s.inner.MTU()): their
+			// results become parameters
+			ast.Inspect(fd.Body, func(n ast.Node) bool {
+				call, ok := n.(*ast.CallExpr)
+				if !ok || len(call.Args) != 0 {
+					return true
+				}
+				if name, t := opaqueCallOf(p.info, r, call); name != "" {
+					for _, oc := range fi.opaqueCalls {
+						if oc.name == name {
+							return true
+						}
+					}
+					fi.opaqueCalls = append(fi.opaqueCalls, opaqueCall{name, t})
 				}
 				return true
 			})
